@@ -122,6 +122,8 @@ inductive Err
   | angles      -- ValueError "Expected n angles but got m." (parameter vector too short)
   | noangles    -- ValueError "No angles were given and block was not unitary" (0-term ParameterizedHamiltonian)
   | funcderiv   -- TypeError: derivative of a function block multiplies a Qobj with a function
+  | noobs       -- NotImplementedError: `cost_derivative` called while `cost_observable is None`
+  | nocostfunc  -- ValueError of `evaluate_parameters`: STATE/BITSTRING without `cost_func`, OBSERVABLE without observable
 deriving DecidableEq, Repr
 
 /-- `block.get_unitary(arg)` for the gate the block receives at offset `i`, `m = len(angles)` -/
@@ -230,6 +232,39 @@ def computeJac (orig : Bool) (bs : List Block) (L m : Nat) (idx : Option (List I
   | none =>
     let es := if orig then jacLoopOrig (indices m idx) s 0 0 else jacLoop (indices m idx) s 0 0
     if es.any (fun e => kindAt bs e.blk == some .func) then .error .funcderiv else .ok es
+
+/-! ## The cost configuration (`cost_method`, `cost_observable`, `cost_func`) -/
+
+/-- `VQA.cost_method` -/
+inductive CostMethod
+  | observable | state | bitstring
+deriving DecidableEq, Repr
+
+/-- `compute_jac` as a function of the cost configuration.  `compute_jac` never reads `cost_method` or
+`cost_func`; `cost_derivative` raises `NotImplementedError` when `cost_observable is None`, which happens
+when the first entry is evaluated — after `get_unitary_derivative` of that entry (`TypeError` for a
+function block).  With no requested entry nothing is raised. -/
+def computeJacCfg (hasObs : Bool) (_cm : CostMethod) (orig : Bool) (bs : List Block) (L m : Nat)
+    (idx : Option (List Int)) : Except Err (List JEntry) :=
+  if hasObs then computeJac orig bs L m idx
+  else
+    let s := blockSeries bs L
+    match seriesErr m s 0 with
+    | some e => .error e
+    | none =>
+      let es := if orig then jacLoopOrig (indices m idx) s 0 0 else jacLoop (indices m idx) s 0 0
+      match es with
+      | [] => .ok []
+      | e :: _ => if kindAt bs e.blk == some .func then .error .funcderiv else .error .noobs
+
+/-- Which quantity `evaluate_parameters` returns: the observable expectation (`true`) or a user function
+of the final state / of a sampled bitstring (`false`); `ValueError` when the needed attribute is missing.
+(The circuit is run first: errors of the propagators come before.) -/
+def evalKind (cm : CostMethod) (hasObs hasFunc : Bool) : Except Err Bool :=
+  match cm with
+  | .observable => if hasObs then .ok true else .error .nocostfunc
+  | .state => if hasFunc then .ok false else .error .nocostfunc
+  | .bitstring => if hasFunc then .ok false else .error .nocostfunc
 
 /-- the values: `cost_derivative(U, modify_unitary(k, dBlock))` for every entry -/
 def jacValues {M R : Type} (mul : M → M → M) (one : M) (ps : List M) (dB : JEntry → M)
